@@ -7,40 +7,6 @@ import PgVerif.Proofs.Wal
 namespace PgVerif.Proofs.Wal
 open PgVerif PgVerif.Model.Wal
 
-theorem contLoop_zero' (fuel : Nat) (fol : Bytes) : contLoop fuel fol 0 = .ok (some []) := by
-  cases fuel with
-  | zero => rfl
-  | succ fuel => unfold contLoop; rw [if_neg (by omega)]; rfl
-
-theorem headerSize_cases (info : Nat) : headerSize info = 24 ∨ headerSize info = 40 := by
-  unfold headerSize; split <;> simp
-
-/-- one iteration of the continuation loop, with the page header already read -/
-theorem contLoop_succ (fuel : Nat) (fol : Bytes) (need : Nat) (hneed : 0 < need) (hlen : 8192 ≤ fol.length) :
-    ∃ h, parsePageHeader (fol.take 8192) = .ok h ∧
-      contLoop (fuel + 1) fol need =
-        if !isValidMagic h.magic || h.info &&& 0x0001 == 0 || h.remLen != need then .ok none
-        else match contLoop fuel (fol.drop 8192) (need - min (8192 - headerSize h.info) need) with
-          | .ok (some more) =>
-            .ok (some (((fol.take 8192).take (headerSize h.info + min (8192 - headerSize h.info) need)).drop (headerSize h.info) ++ more))
-          | .ok none => .ok none
-          | .error e => .error e := by
-  obtain ⟨h, hh⟩ := parsePageHeader_total (fol.take 8192) (by rw [List.length_take]; omega)
-  refine ⟨h, hh, ?_⟩
-  have hhs := headerSize_cases h.info
-  have hn : (if 8192 - headerSize h.info > need then need else 8192 - headerSize h.info) = min (8192 - headerSize h.info) need := by
-    split <;> omega
-  conv => lhs; unfold contLoop
-  rw [if_pos hneed, if_neg (by omega), sliceTo_ok fol 8192 hlen]
-  simp only [ok_bind, hh]
-  split
-  · rfl
-  · rw [hn, slice_ok _ _ _ (by rw [List.length_take]; omega) (by omega), sliceFrom_ok fol 8192 hlen]
-    simp only [ok_bind]
-    cases contLoop fuel (fol.drop 8192) (need - min (8192 - headerSize h.info) need) with
-    | error e => rfl
-    | ok r => cases r <;> rfl
-
 /-- the fuel of the continuation loop does not matter once it is at least `need` -/
 theorem contLoop_fuel (f1 f2 : Nat) (fol : Bytes) (need : Nat) (h1 : need ≤ f1) (h2 : need ≤ f2) :
     contLoop f1 fol need = contLoop f2 fol need := by
@@ -125,7 +91,7 @@ theorem recordLoop_congr (data f1 f2 : Bytes) (h : ∀ need, continuationData f1
   | zero => rfl
   | succ fuel ih =>
     have hb : ∀ tail, recordBytes tail f1 = recordBytes tail f2 := by
-      intro tail; unfold recordBytes; simp only [h]
+      intro tail; rw [recordBytes_eq, recordBytes_eq]; simp only [h]
     unfold recordLoop
     simp only [hb, ih]
 
